@@ -29,4 +29,16 @@ var specs = map[string]*propSpec{
 			{Name: "race", Flavour: "race", Env: []string{"GORACE=halt_on_error=1"}, Quick: 6000, Thorough: 150000, PerProc: 250, Progress: true, TimeoutS: 600},
 		},
 	},
+	"C08": {
+		ID:   "C08",
+		Rule: "one run = 1-4 fresh dynamic types (reflect.StructOf etc., never seen by the process: first-use compilation happens inside the run) + callback types that yield mid-encode/mid-decode, 2-6 clients x 1-6 API calls (Marshal, MarshalString, MarshalIndent, EncodeInto, Unmarshal, UnmarshalString, Valid, Get, Pretouch with compile options), several clients sharing one type, program-cache capacity 2..4096 and pool hit/miss/steal decisions from the tape, injected callback panics in a quarter of the runs; non-trivial = more context switches than clients; distinct = distinct trace hash",
+		Assume: []string{
+			"generated machine code and native routines are atomic blocks for the scheduler except where they call back into Go (callbacks yield); races inside them are invisible to the race detector",
+			"reference = the same call executed alone after the run (the property's wording) and encoding/json inside the value subset of DESIGN Appendix B; a disagreement with encoding/json that the solo call shares is counted (harness_ref_disagrees_with_solo), not reported: it is C01/C03 material",
+		},
+		Batches: []batch{
+			{Name: "norace", Flavour: "plain", Quick: 2400, Thorough: 120000, PerProc: 150, Progress: true, TimeoutS: 600},
+			{Name: "race", Flavour: "race", Env: []string{"GORACE=halt_on_error=1"}, Quick: 1200, Thorough: 40000, PerProc: 100, Progress: true, TimeoutS: 900},
+		},
+	},
 }
